@@ -63,6 +63,25 @@ func (m *ExpirationManager) VerifTracked() (pending, nonexpiring, irrevocable []
 	return
 }
 
+// VerifStopTimers stops the expiry timer of every tracked lease. The harness
+// calls it right before it shuts a Core down: ExpirationManager.Stop clears the
+// pending map before the goroutine that is meant to stop the timers ranges over
+// it, so the timers of unexpired leases stay armed and keep the whole Core
+// reachable until they fire (hours, for the harness's leases) - thousands of
+// shut-down Cores per worker process would otherwise stay in memory.
+func (m *ExpirationManager) VerifStopTimers() {
+	m.pendingLock.Lock()
+	defer m.pendingLock.Unlock()
+	stop := func(_, v any) bool {
+		if pi, ok := v.(pendingInfo); ok && pi.timer != nil {
+			pi.timer.Stop()
+		}
+		return true
+	}
+	m.pending.Range(stop)
+	m.nonexpiring.Range(stop)
+}
+
 // VerifRestoreDone reports whether the lease restore has finished.
 func (m *ExpirationManager) VerifRestoreDone() bool { return !m.inRestoreMode() }
 
